@@ -414,35 +414,35 @@ impl ActivePeers {
     W = 'impl ActivePeers :: fn '
     t += C.fn(CM, W + 'subscribe', 'ActivePeers::subscribe', ['C04'], optional=True, ret='r', rewrites=[('X5', 'broadcast::Receiver<PeerEvent>', 'Receiver', 1)], sig_rewrites=[('&self', '&mut self')], spec="""
     ensures
-        final(self).1@ == old(self).1@ + 1, // @OBL ActivePeers::subscribe::one_critical_section [C04] the whole operation is ONE critical section: exactly one lock acquisition (no check-then-act across two)
+        final(self).1@ == old(self).1@ + 1, // @OBL ActivePeers::subscribe::one_critical_section [C04,C06] the whole operation is ONE critical section: exactly one lock acquisition (no check-then-act across two); in particular the lock is never taken a second time while it is held (std RwLock: a recursive read deadlocks as soon as a writer queues between the two)
         final(self).0 == old(self).0, // @OBL ActivePeers::subscribe::read_only [C04] a read operation changes nothing in the set
         r.0.start@ == old(self).0.peer_event_sender.log@.len() && r.1@.to_set() =~= old(self).0.connections@.dom() && r.1@.no_duplicates(), // @OBL ActivePeers::subscribe::delegates [C04] subscribe() takes snapshot and receiver under one lock acquisition
 """)
     t += C.fn(CM, W + 'get', 'ActivePeers::get', ['C04', 'C09'], optional=True, ret='r', sig_rewrites=[('&self', '&mut self')], spec="""
     ensures
-        final(self).1@ == old(self).1@ + 1, // @OBL ActivePeers::get::one_critical_section [C04] the whole operation is ONE critical section: exactly one lock acquisition (no check-then-act across two)
+        final(self).1@ == old(self).1@ + 1, // @OBL ActivePeers::get::one_critical_section [C04,C06] the whole operation is ONE critical section: exactly one lock acquisition (no check-then-act across two); in particular the lock is never taken a second time while it is held (std RwLock: a recursive read deadlocks as soon as a writer queues between the two)
         final(self).0 == old(self).0, // @OBL ActivePeers::get::read_only [C04] a read operation changes nothing in the set
         r == (if old(self).0.connections@.contains_key(*peer_id) { Some(old(self).0.connections@[*peer_id]) } else { None::<Connection> }), // @OBL ActivePeers::get::delegates [C04,C09] get() is the lookup in the locked set
 """)
     t += C.fn(CM, W + 'len', 'ActivePeers::len', ['C04', 'C10'], optional=True, ret='r', sig_rewrites=[('&self', '&mut self')], spec="""
     ensures
-        final(self).1@ == old(self).1@ + 1, // @OBL ActivePeers::len::one_critical_section [C04] the whole operation is ONE critical section: exactly one lock acquisition (no check-then-act across two)
+        final(self).1@ == old(self).1@ + 1, // @OBL ActivePeers::len::one_critical_section [C04,C06] the whole operation is ONE critical section: exactly one lock acquisition (no check-then-act across two); in particular the lock is never taken a second time while it is held (std RwLock: a recursive read deadlocks as soon as a writer queues between the two)
         final(self).0 == old(self).0, // @OBL ActivePeers::len::read_only [C04] a read operation changes nothing in the set
         r == old(self).0.connections@.dom().len(), // @OBL ActivePeers::len::delegates [C04,C10] len() is the size of the locked set
 """)
     t += C.fn(CM, W + 'remove', 'ActivePeers::remove', ['C04', 'C09'], optional=True, sig_rewrites=[('&self', '&mut self')], spec="""
     ensures
-        final(self).1@ == old(self).1@ + 1, // @OBL ActivePeers::remove::one_critical_section [C04] the whole operation is ONE critical section: exactly one lock acquisition (no check-then-act across two)
+        final(self).1@ == old(self).1@ + 1, // @OBL ActivePeers::remove::one_critical_section [C04,C06] the whole operation is ONE critical section: exactly one lock acquisition (no check-then-act across two); in particular the lock is never taken a second time while it is held (std RwLock: a recursive read deadlocks as soon as a writer queues between the two)
         final(self).0.view() =~~= rm_spec(old(self).0.view(), *peer_id, reason), // @OBL ActivePeers::remove::delegates [C04,C09] remove() is exactly the inner transition, under one write-lock acquisition
 """)
     t += C.fn(CM, W + 'remove_with_stable_id', 'ActivePeers::remove_with_stable_id', ['C04', 'C05'], optional=True, sig_rewrites=[('&self', '&mut self')], spec="""
     ensures
-        final(self).1@ == old(self).1@ + 1, // @OBL ActivePeers::remove_with_stable_id::one_critical_section [C04,C05] the whole operation is ONE critical section: exactly one lock acquisition (no check-then-act across two)
+        final(self).1@ == old(self).1@ + 1, // @OBL ActivePeers::remove_with_stable_id::one_critical_section [C04,C05,C06] the whole operation is ONE critical section: exactly one lock acquisition (no check-then-act across two); in particular the lock is never taken a second time while it is held (std RwLock: a recursive read deadlocks as soon as a writer queues between the two)
         final(self).0.view() =~~= rm_sid_spec(old(self).0.view(), peer_id, stable_id, reason), // @OBL ActivePeers::remove_with_stable_id::delegates [C04,C05,C09] remove_with_stable_id() is exactly the inner transition, under one write-lock acquisition
 """)
     t += C.fn(CM, W + 'add', 'ActivePeers::add', ['C04', 'C05', 'C03'], optional=True, ret='r', sig_rewrites=[('&self', '&mut self')], spec="""
     ensures
-        final(self).1@ == old(self).1@ + 1, // @OBL ActivePeers::add::one_critical_section [C04,C05] the whole operation is ONE critical section: exactly one lock acquisition (no check-then-act across two)
+        final(self).1@ == old(self).1@ + 1, // @OBL ActivePeers::add::one_critical_section [C04,C05,C06] the whole operation is ONE critical section: exactly one lock acquisition (no check-then-act across two); in particular the lock is never taken a second time while it is held (std RwLock: a recursive read deadlocks as soon as a writer queues between the two)
         ({
             let pre = old(self).0.view();
             let c = new_connection;
